@@ -72,3 +72,17 @@ From JP Require Import Proofs.TieLex Gen.LexConst Model.Lex.
 Theorem C09_lexer_tables_regenerated : lex_tables_agree.      (* same matcher results on every text; same escape set *)
 Proof. exact lex_tables_regenerated. Qed.
 Print Assumptions C09_lexer_tables_regenerated.
+
+(* ---- the literal inside a whole query ----
+   As a name selector and as the right side of a comparison inside a filter: for every body the RFC derives (either quote style, every escape
+   form), compile() of the whole query returns the query holding the RFC value of the literal - the lexer's string states entered from the
+   bracket state and from the filter state, the token's decoding, the parser (Proofs/StringInQuery.v, through C03_complete_spelled). *)
+From JP Require Import Model.Ast Model.Api Proofs.StringInQuery.
+Theorem C09_name_selector_in_query : forall cfg q body k, q = 39%N \/ q = 34%N -> spec_decode q body = Some k ->
+  m_compile cfg ([36; 91]%N ++ q :: body ++ [q; 93%N]) = Ok [Child [SName k]].
+Proof. exact string_name_selector. Qed.
+Print Assumptions C09_name_selector_in_query.
+Theorem C09_comparison_in_query : forall cfg q body k, q = 39%N \/ q = 34%N -> spec_decode q body = Some k ->
+  m_compile cfg ([36; 91; 63; 64; 61; 61]%N ++ q :: body ++ [q; 93%N]) = Ok [Child [SFilter (ECmp OEq (ERel []) (ELit (JStr k)))]].
+Proof. exact string_comparison. Qed.
+Print Assumptions C09_comparison_in_query.
